@@ -1370,6 +1370,34 @@ fn c07_graceful(ix: &Ix, f: &mut Findings) {
 fn c08(ix: &Ix, f: &mut Findings) {
     for a in 0..ix.actors.len() {
         let x = &ix.actors[a];
+        // an enabled on_run is what an idle actor does: at EVERY quiescent instant at which a started actor is idle, nothing
+        // has begun to end it and on_run has never returned Ok(false)/Err, on_run has been (re)started since the actor last did
+        // anything else. A stop() whose future was given up before the marker could be queued has requested nothing.
+        if ix.sim() && x.started_ok() {
+            let start_pos = x.start_exit.map(|s| s.0).unwrap_or(usize::MAX);
+            for &sp in ix.samples.iter().filter(|s| **s > start_pos && matches!(&ix.log[**s].k, K::Sample { actor, phase, .. } if *actor == a && !phase.starts_with("client"))) {
+                let ending = x.c().map(|c| c < sp).unwrap_or(false)
+                    || x.ended_pos().map(|e| e < sp).unwrap_or(false)
+                    || x.first_hook_panic().map(|p| p < sp).unwrap_or(false)
+                    || x.kills.iter().any(|k| ix.ops[k].s < sp)
+                    || x.stops.iter().any(|k| ix.ops[k].s < sp && !ix.ops[k].cancelled.map(|c| c < sp).unwrap_or(false));
+                if ending {
+                    break;
+                }
+                let disabled = x.run_done.iter().any(|r| r.0 < sp && r.2 != Out::True);
+                if disabled {
+                    break;
+                }
+                if ix.hook_in_progress(a, sp) || ix.pending_work(a, sp) {
+                    continue;
+                }
+                let last_other = x.hexit.iter().chain(x.hpanic.iter()).map(|h| h.0).chain(x.run_done.iter().map(|r| r.0)).filter(|p| *p < sp).max().unwrap_or(start_pos);
+                f.o("C08.idle_runs");
+                if !x.run_poll.iter().any(|r| r.0 > last_other && r.0 < sp) {
+                    f.v("C08.idle_runs", Some(a), format!("actor {a} is idle at the quiescent instant at log position {sp} (nothing queued, nothing ending it, on_run never returned Ok(false) or Err), but on_run has not been started again since the actor last finished something at {last_other}"));
+                }
+            }
+        }
         // on_run is enabled from the start for every actor (only its own Ok(false) disables it): at the first quiescent instant
         // at which a started actor is idle and nothing has begun to end it, on_run has been run at least once
         if ix.sim() && x.started_ok() {
@@ -1379,7 +1407,7 @@ fn c08(ix: &Ix, f: &mut Findings) {
                     || x.ended_pos().map(|e| e < sp).unwrap_or(false)
                     || x.first_hook_panic().map(|p| p < sp).unwrap_or(false)
                     || x.kills.iter().any(|k| ix.ops[k].s < sp)
-                    || x.stops.iter().any(|k| ix.ops[k].s < sp);
+                    || x.stops.iter().any(|k| ix.ops[k].s < sp && !ix.ops[k].cancelled.map(|c| c < sp).unwrap_or(false));
                 if !ending && !ix.hook_in_progress(a, sp) && !ix.pending_work(a, sp) {
                     f.o("C08.first_run");
                     if !x.run_poll.iter().any(|r| r.0 < sp) {
